@@ -1,0 +1,113 @@
+//go:build verif
+
+// Contracts (//@ comments, read by /verif/govc) and proof harnesses for package bgp. Built only with -tags verif.
+package bgp
+
+// ---------------------------------------------------------------------------------------------
+// errors, families
+//@ props C05 C06
+
+//@ func NewMessageError
+//@   modifies nothing
+//@   ensures typeOf(result) == (*MessageError) && fresh(result.(*MessageError))
+//@   ensures result.(*MessageError).TypeCode == typeCode && result.(*MessageError).SubTypeCode == subTypeCode
+//@   ensures result.(*MessageError).ErrorHandling == ERROR_HANDLING_SESSION_RESET
+
+//@ func NewMessageErrorWithErrorHandling
+//@   modifies nothing
+//@   ensures typeOf(result) == (*MessageError) && fresh(result.(*MessageError))
+//@   ensures result.(*MessageError).TypeCode == typeCode && result.(*MessageError).SubTypeCode == subTypeCode
+//@   ensures result.(*MessageError).ErrorHandling == errorHandling
+
+//@ props C05
+//@ func NewFamily
+//@   inline
+//@ func (Family).Afi
+//@   inline
+//@ func (Family).Safi
+//@   inline
+
+// ---------------------------------------------------------------------------------------------
+// capabilities (OPEN)
+//@ props C05 C04
+
+//@ func (*DefaultParameterCapability).Len
+//@   inline
+//@ func (*DefaultParameterCapability).Code
+//@   inline
+
+// from C05: "the length every ... reports ... never mis-framed": a capability occupies at least its 2-octet header
+//@ interface ParameterCapabilityInterface.Len
+//@   pure
+//@   ensures result >= 2 && result <= 257
+
+//@ func (*DefaultParameterCapability).DecodeFromBytes
+//@   modifies c.*
+//@   ensures err == nil ==> len(data) >= 2 + int(c.CapLen) && c.CapCode == data[0]
+//@   ensures err == nil && c.CapLen > 0 ==> len(c.CapValue) == int(c.CapLen)
+//@   ensures err == nil && c.CapLen == 0 ==> c.CapValue === old(c.CapValue)
+//@   ensures err != nil ==> typeOf(err) == (*MessageError)
+
+//@ func (*CapMultiProtocol).DecodeFromBytes
+//@   requires len(c.DefaultParameterCapability.CapValue) == 0
+//@   modifies c.*
+//@   ensures err == nil ==> len(data) >= 2 + int(c.CapLen)
+//@ func (*CapFourOctetASNumber).DecodeFromBytes
+//@   requires len(c.DefaultParameterCapability.CapValue) == 0
+//@   modifies c.*
+//@   ensures err == nil ==> len(data) >= 2 + int(c.CapLen)
+//@ func (*CapExtendedNexthop).DecodeFromBytes
+//@   modifies c.*
+//@   loop 0 invariant len(data) >= capLen && capLen >= 0
+//@   loop 0 decreases capLen
+//@   ensures err == nil ==> len(data) >= 2 + int(c.CapLen)
+//@ func (*CapGracefulRestart).DecodeFromBytes
+//@   requires len(c.CapValue) == 0
+//@   modifies c.*
+//@   loop 0 invariant len(v) >= i && i >= 0
+//@   loop 0 decreases i
+//@   ensures err == nil ==> len(data) >= 2 + int(c.CapLen)
+//@ func (*CapAddPath).DecodeFromBytes
+//@   modifies c.*
+//@   loop 0 invariant len(data) >= capLen && capLen >= 0
+//@   loop 0 decreases capLen
+//@   ensures err == nil ==> len(data) >= 2 + int(c.CapLen)
+//@ func (*CapLongLivedGracefulRestart).DecodeFromBytes
+//@   modifies c.*
+//@   loop 0 invariant len(data) >= i && i >= 0
+//@   loop 0 decreases i
+//@   ensures err == nil ==> len(data) >= 2 + int(c.CapLen)
+//@ func (*CapFQDN).DecodeFromBytes
+//@   requires len(c.CapValue) == 0
+//@   modifies c.*
+//@   ensures err == nil ==> len(data) >= 2 + int(c.CapLen)
+//@ func (*CapSoftwareVersion).DecodeFromBytes
+//@   requires len(c.CapValue) == 0
+//@   modifies c.*
+//@   ensures err == nil ==> len(data) >= 2 + int(c.CapLen)
+
+//@ func DecodeCapability
+//@   modifies nothing
+//@   ensures err == nil ==> result0 != nil
+//@   ensures err != nil ==> result0 == nil
+
+//@ func (*OptionParameterCapability).DecodeFromBytes
+//@   modifies o.*
+//@   loop 0 decreases len(data)
+
+//@ func (*BGPOpen).DecodeFromBytes
+//@   modifies msg.*
+//@   loop 0 invariant len(data) >= int(rest)
+//@   loop 0 decreases int(rest)
+
+// ---------------------------------------------------------------------------------------------
+// message level
+//@ func (*BGPHeader).DecodeFromBytes
+//@   modifies msg.*
+//@   ensures err == nil ==> msg.Len >= 19 && len(data) >= 19
+//@ func (*BGPKeepAlive).DecodeFromBytes
+//@   modifies nothing
+//@ func (*BGPNotification).DecodeFromBytes
+//@   modifies msg.*
+//@ func (*BGPRouteRefresh).DecodeFromBytes
+//@   modifies msg.*
